@@ -637,10 +637,15 @@ func (m *RpcServer) ControlEnvironment(cxt context.Context, req *pb.ControlEnvir
 			WithField("level", infologger.IL_Ops).
 			WithError(err).
 			Errorf("transition '%s' failed, transitioning into ERROR.", req.GetType().String())
-		err = env.TryTransition(environment.NewGoErrorTransition(m.state.taskman))
-		if err != nil {
-			log.WithField("partition", env.Id()).Warnf("could not complete requested GO_ERROR transition, forcing move to ERROR: %s", err.Error())
-			env.Sm.SetState("ERROR")
+		if env.CurrentState() == "DONE" {
+			// The environment was torn down while this request was waiting for its turn: DONE is final
+			log.WithField("partition", env.Id()).Warn("environment is DONE, not moving to ERROR")
+		} else {
+			err = env.TryTransition(environment.NewGoErrorTransition(m.state.taskman))
+			if err != nil {
+				log.WithField("partition", env.Id()).Warnf("could not complete requested GO_ERROR transition, forcing move to ERROR: %s", err.Error())
+				env.Sm.SetState("ERROR")
+			}
 		}
 	}
 
